@@ -902,7 +902,574 @@ def translate_spikemath(repo: str = REPO):
     return txt, man
 
 
-SPECIAL = {"Conv": translate_conv_outsize, "SpikeMath": translate_spikemath}
+# ------------------------------------------------------------------ special: ShapedTensor constraint bookkeeping
+# inferno/core/infrastructure.py: _constraint_dimensionality, _constraints_compatible, _constraints_consistent,
+# ShapedTensor._ignore / ._ignore_or_compatible / .valid / .compatible and the decision logic of ShapedTensor.reconstrain,
+# read over association lists `list (Z * nat)` (dimension -> size; dimensions may be negative).  Integer expressions,
+# comparisons and the if-trees are translated; the dict / sequence / loop shapes these functions use are recognised
+# exactly (anything else raises TranslationError).  The reading of the python primitives is the fixed prelude below.
+CONSTRAINTS_PRELUDE = r"""(* GENERATED by tools/translate.py from inferno/core/infrastructure.py -- do not edit *)
+From Coq Require Import List ZArith Bool Arith.
+Import ListNotations.
+
+(* ---- reading of the python primitives used by the translated functions (fixed text) ----
+   dict[int, int] with unique keys = association list in insertion order; sizes are naturals *)
+Definition pydict := list (Z * nat).
+Fixpoint py_in (c : pydict) (d : Z) : bool :=                                   (* d in c *)
+  match c with [] => false | (k, _) :: tl => if (k =? d)%Z then true else py_in tl d end.
+Fixpoint py_setitem (c : pydict) (d : Z) (s : nat) : pydict :=                  (* c[d] = s   and   c | {d: s} *)
+  match c with
+  | [] => [(d, s)]
+  | (k, s0) :: tl => if (k =? d)%Z then (k, s) :: tl else (k, s0) :: py_setitem tl d s
+  end.
+Fixpoint py_delitem (c : pydict) (d : Z) : pydict :=                            (* del c[d] *)
+  match c with [] => [] | (k, s0) :: tl => if (k =? d)%Z then tl else (k, s0) :: py_delitem tl d end.
+Definition py_empty (c : pydict) : bool := match c with [] => true | _ => false end.   (* not c *)
+Definition py_max_key (c : pydict) : Z :=                                       (* max(c), c not empty *)
+  match map fst c with [] => 0%Z | k :: ks => fold_right Z.max k ks end.
+Definition py_min_key (c : pydict) : Z :=                                       (* min(c), c not empty *)
+  match map fst c with [] => 0%Z | k :: ks => fold_right Z.min k ks end.
+(* position addressed by a possibly negative index into a sequence of length n *)
+Definition py_index (n : nat) (d : Z) : nat :=
+  if (0 <=? d)%Z then Z.to_nat d else Z.to_nat (Z.of_nat n + d).
+Definition py_getitem {X} (dflt : X) (l : list X) (d : Z) : X := nth (py_index (length l) d) l dflt.   (* l[d] *)
+Fixpoint py_list_set {X} (l : list X) (i : nat) (x : X) : list X :=
+  match l, i with [], _ => [] | _ :: t, O => x :: t | h :: t, S j => h :: py_list_set t j x end.
+Definition py_setitem_list {X} (l : list X) (d : Z) (x : X) : list X := py_list_set l (py_index (length l) d) x.   (* l[d] = x *)
+Definition py_opt_is_none {X} (o : option X) : bool := match o with None => true | Some _ => false end.
+Definition py_opt_eqb (o : option nat) (s : nat) : bool := match o with Some s0 => s0 =? s | None => false end.   (* o == s *)
+(* the value of the attribute as far as the bookkeeping looks at it: None, an uninitialised buffer / parameter, or a
+   tensor of some shape; attributes of the first two are never evaluated by the code (short-circuit) *)
+Inductive pydata := PyNone | PyUninit | PyTensor (shape : list nat).
+Definition pd_is_none (x : pydata) : bool := match x with PyNone => true | _ => false end.
+Definition pd_is_uninit (x : pydata) : bool := match x with PyUninit => true | _ => false end.
+Definition pd_shape (x : pydata) : list nat := match x with PyTensor sh => sh | _ => [] end.
+Definition py_numel (shape : list nat) : nat := fold_right Nat.mul 1 shape.
+Inductive pyexc := ExcValueError | ExcRuntimeError | ExcAssertionError.
+(* outcome of ShapedTensor.reconstrain: the constraint dictionary it leaves behind and either a normal return
+   (with: was the data passed through __make_compatible) or the exception raised *)
+Inductive rc_result := RcReturn (constraints : pydict) (resized : bool) | RcRaise (e : pyexc) (constraints : pydict).
+
+"""
+
+
+class CTr:
+    """expression / statement translator for the constraint bookkeeping functions.
+    types: C pydict, Z int, N nat, B bool, D pydata, S shape (list nat), ON option nat, H list (option nat), lit"""
+
+    SIGS = {  # callee -> (coq name, [param types], return type)
+        "_constraint_dimensionality": ("_constraint_dimensionality", ["C", "B"], "Z"),
+        "_constraints_compatible": ("_constraints_compatible", ["S", "C", "B"], "B"),
+        "_constraints_consistent": ("_constraints_consistent", ["C", "N"], "B"),
+        "self._ignore": ("ShapedTensor__ignore", ["D"], "B"),
+        "self._ignore_or_compatible": ("ShapedTensor__ignore_or_compatible", ["D", "C", "B"], "B"),
+    }
+
+    def __init__(self, where: str, rename: dict[str, str] | None = None):
+        self.where = where
+        self.rename = rename or {}
+
+    def err(self, msg, node=None):
+        src = f" `{ast.unparse(node)}`" if node is not None else ""
+        raise TranslationError(f"{self.where}: {msg}{src}")
+
+    # ---- coercions
+    def toZ(self, e):
+        t, ty = e
+        if ty == "Z":
+            return t
+        if ty == "N":
+            return f"(Z.of_nat {t})"
+        if ty == "lit":
+            return f"({t})%Z"
+        if ty == "B":
+            return f"(Z.b2z {t})"
+        self.err(f"cannot use a value of type {ty} as an integer: {t}")
+
+    def toN(self, e):
+        t, ty = e
+        if ty == "N":
+            return t
+        if ty == "lit" and t >= 0:
+            return f"{t}%nat"
+        self.err(f"cannot use a value of type {ty} as a natural number: {t}")
+
+    def truthy(self, e):
+        t, ty = e
+        if ty == "B":
+            return t
+        if ty == "N":
+            return f"(negb (Nat.eqb {t} 0%nat))"
+        if ty == "Z":
+            return f"(negb (Z.eqb {t} 0%Z))"
+        if ty == "C":
+            return f"(negb (py_empty {t}))"
+        self.err(f"cannot use a value of type {ty} as a condition: {t}")
+
+    def coerce(self, e, want):
+        t, ty = e
+        if ty == want:
+            return t
+        if want == "Z":
+            return self.toZ(e)
+        if want == "N":
+            return self.toN(e)
+        if want == "B":
+            return self.truthy(e)
+        if want == "S" and ty == "D":
+            return f"(pd_shape {t})"
+        self.err(f"cannot pass a value of type {ty} where {want} is expected: {t}")
+
+    # ---- expressions
+    def ex(self, n, env):
+        s = ast.unparse(n)
+        if s in self.rename:
+            nm = self.rename[s]
+            return self.ex(ast.Name(id=nm, ctx=ast.Load()), env)
+        if isinstance(n, ast.Name):
+            if n.id not in env:
+                self.err("unknown name", n)
+            v = env[n.id]
+            return v
+        if isinstance(n, ast.Constant):
+            if n.value is True:
+                return ("true", "B")
+            if n.value is False:
+                return ("false", "B")
+            if isinstance(n.value, int):
+                return (n.value, "lit")
+            self.err("unsupported constant", n)
+        if isinstance(n, ast.Dict):
+            # a dict display with distinct-by-construction keys: {} or {key: value}
+            if len(n.keys) > 1 or any(k is None for k in n.keys):
+                self.err("only {} and {key: value} dict displays are supported", n)
+            if not n.keys:
+                return ("(@nil (Z * nat))", "C")
+            return (f"(py_setitem (@nil (Z * nat)) {self.toZ(self.ex(n.keys[0], env))} "
+                    f"{self.toN(self.ex(n.values[0], env))})", "C")
+        if isinstance(n, ast.UnaryOp) and isinstance(n.op, ast.Not):
+            v = self.ex(n.operand, env)
+            if v[1] == "C":
+                return (f"(py_empty {v[0]})", "B")
+            return (f"(negb {self.truthy(v)})", "B")
+        if isinstance(n, ast.BoolOp):
+            op = "andb" if isinstance(n.op, ast.And) else "orb"
+            vals = [self.truthy(self.ex(v, env)) for v in n.values]
+            out = vals[-1]
+            for v in reversed(vals[:-1]):
+                out = f"({op} {v} {out})"
+            return (out, "B")
+        if isinstance(n, ast.BinOp):
+            if isinstance(n.op, ast.BitOr):
+                l = self.ex(n.left, env)
+                if l[1] != "C" or not isinstance(n.right, ast.Dict) or len(n.right.keys) != 1 or n.right.keys[0] is None:
+                    self.err("only `<dict> | {key: value}` is supported", n)
+                k = self.toZ(self.ex(n.right.keys[0], env))
+                v = self.toN(self.ex(n.right.values[0], env))
+                return (f"(py_setitem {l[0]} {k} {v})", "C")
+            if isinstance(n.op, (ast.Add, ast.Sub)):
+                l, r = self.ex(n.left, env), self.ex(n.right, env)
+                if "Z" not in (l[1], r[1]):
+                    self.err("integer arithmetic is only supported on dimension-valued (Z) operands", n)
+                op = "Z.add" if isinstance(n.op, ast.Add) else "Z.sub"
+                return (f"({op} {self.toZ(l)} {self.toZ(r)})", "Z")
+            self.err("unsupported operator", n)
+        if isinstance(n, ast.Compare):
+            if len(n.ops) != 1:
+                self.err("chained comparison", n)
+            op, l, rn = n.ops[0], self.ex(n.left, env), n.comparators[0]
+            if isinstance(op, (ast.Is, ast.IsNot)):
+                if not (isinstance(rn, ast.Constant) and rn.value is None):
+                    self.err("`is` is only supported against None", n)
+                if l[1] == "D":
+                    t = f"(pd_is_none {l[0]})"
+                elif l[1] == "ON":
+                    t = f"(py_opt_is_none {l[0]})"
+                elif l[1] in ("N", "S"):
+                    t = "false"          # a value known not to be None
+                else:
+                    self.err(f"`is None` on a value of type {l[1]}", n)
+                return (t if isinstance(op, ast.Is) else f"(negb {t})", "B")
+            r = self.ex(rn, env)
+            if isinstance(op, (ast.In, ast.NotIn)):
+                if r[1] != "C":
+                    self.err("`in` is only supported on the constraint dictionary", n)
+                t = f"(py_in {r[0]} {self.toZ(l)})"
+                return (t if isinstance(op, ast.In) else f"(negb {t})", "B")
+            if isinstance(op, ast.Eq) and l[1] == "ON":
+                return (f"(py_opt_eqb {l[0]} {self.toN(r)})", "B")
+            tys = {l[1], r[1]}
+            if not tys <= {"Z", "N", "lit"} or tys == {"lit"}:
+                self.err(f"comparison of {l[1]} with {r[1]}", n)
+            z = "Z" in tys
+            a, b = (self.toZ(l), self.toZ(r)) if z else (self.toN(l), self.toN(r))
+            m = "Z" if z else "Nat"
+            if isinstance(op, ast.Eq):
+                return (f"({m}.eqb {a} {b})", "B")
+            if isinstance(op, ast.NotEq):
+                return (f"(negb ({m}.eqb {a} {b}))", "B")
+            if isinstance(op, ast.Lt):
+                return (f"({m}.ltb {a} {b})", "B")
+            if isinstance(op, ast.LtE):
+                return (f"({m}.leb {a} {b})", "B")
+            if isinstance(op, ast.Gt):
+                return (f"({m}.ltb {b} {a})", "B")
+            if isinstance(op, ast.GtE):
+                return (f"({m}.leb {b} {a})", "B")
+            self.err("unsupported comparison", n)
+        if isinstance(n, ast.Attribute):
+            v = self.ex(n.value, env)
+            if n.attr == "ndim" and v[1] in ("D", "S"):
+                return (f"(length {self.coerce(v, 'S')})", "N")
+            if n.attr == "shape" and v[1] in ("D", "S"):
+                return (self.coerce(v, "S"), "S")
+            self.err("unsupported attribute", n)
+        if isinstance(n, ast.Subscript):
+            v, i = self.ex(n.value, env), self.toZ(self.ex(n.slice, env))
+            if v[1] == "S":
+                return (f"(py_getitem 0%nat {v[0]} {i})", "N")
+            if v[1] == "H":
+                return (f"(py_getitem None {v[0]} {i})", "ON")
+            self.err("unsupported subscript", n)
+        if isinstance(n, ast.Call):
+            f = ast.unparse(n.func)
+            if n.keywords:
+                self.err("keyword arguments in a call", n)
+            if f in ("max", "min") and len(n.args) == 1:
+                v = self.ex(n.args[0], env)
+                if v[1] != "C":
+                    self.err(f"{f}() of one argument is only supported on the constraint dictionary", n)
+                return (f"(py_{f}_key {v[0]})", "Z")
+            if f in ("max", "min") and len(n.args) == 2:
+                a, b = self.ex(n.args[0], env), self.ex(n.args[1], env)
+                if "Z" not in (a[1], b[1]):
+                    self.err(f"{f}() is only supported on dimension-valued (Z) operands", n)
+                return (f"(Z.{f} {self.toZ(a)} {self.toZ(b)})", "Z")
+            if f == "abs" and len(n.args) == 1:
+                return (f"(Z.abs {self.toZ(self.ex(n.args[0], env))})", "Z")
+            if f == "bool" and len(n.args) == 1:
+                return (self.truthy(self.ex(n.args[0], env)), "B")
+            if f == "isinstance" and len(n.args) == 2 \
+                    and ast.unparse(n.args[1]) == "nn.UninitializedBuffer | nn.UninitializedParameter":
+                v = self.ex(n.args[0], env)
+                if v[1] != "D":
+                    self.err("isinstance(.., uninitialised) on a value that is not the attribute's data", n)
+                return (f"(pd_is_uninit {v[0]})", "B")
+            if isinstance(n.func, ast.Attribute) and n.func.attr == "numel" and not n.args:
+                v = self.ex(n.func.value, env)
+                if v[1] not in ("D", "S"):
+                    self.err("numel() of a value that is not a tensor", n)
+                return (f"(py_numel {self.coerce(v, 'S')})", "N")
+            if f == "all" and len(n.args) == 1:
+                return self.all_starmap(n.args[0], env)
+            if f in self.SIGS:
+                name, ptys, rty = self.SIGS[f]
+                if len(n.args) != len(ptys):
+                    self.err("wrong number of arguments", n)
+                args = [self.coerce(self.ex(a, env), t) for a, t in zip(n.args, ptys)]
+                return (f"({name} {' '.join(args)})", rty)
+            self.err("unsupported call", n)
+        self.err("unsupported expression", n)
+
+    def all_starmap(self, n, env):
+        """all(starmap(lambda d, s, shape=<tensor>.shape: BODY, <dict>.items()))"""
+        ok = isinstance(n, ast.Call) and ast.unparse(n.func) == "starmap" and len(n.args) == 2 and not n.keywords \
+            and isinstance(n.args[0], ast.Lambda)
+        it = n.args[1] if ok else None
+        ok = ok and isinstance(it, ast.Call) and isinstance(it.func, ast.Attribute) and it.func.attr == "items" \
+            and not it.args and not it.keywords
+        if not ok:
+            self.err("all(...) is only supported as all(starmap(lambda d, s, shape=..: .., <dict>.items()))", n)
+        lam = n.args[0]
+        a = lam.args
+        if [x.arg for x in a.args] != ["d", "s", "shape"] or len(a.defaults) != 1 or a.vararg or a.kwarg or a.kwonlyargs \
+                or a.posonlyargs:
+            self.err("the starmap lambda must be `lambda d, s, shape=<tensor>.shape`", lam)
+        d = self.ex(it.func.value, env)
+        sh = self.ex(a.defaults[0], env)
+        if d[1] != "C" or sh[1] != "S":
+            self.err("starmap over something that is not (constraints.items(), a shape)", n)
+        env2 = dict(env, d=("d", "Z"), s=("s", "N"), shape=("shape", "S"))
+        body = self.truthy(self.ex(lam.body, env2))
+        return (f"(forallb (fun ds : Z * nat => let d := fst ds in let s := snd ds in let shape := {sh[0]} in {body}) "
+                f"{d[0]})", "B")
+
+    # ---- pure functions: an if / elif / else tree of returns
+    def ret_tree(self, stmts, env, rty):
+        stmts = [st for st in stmts if not (isinstance(st, ast.Expr) and isinstance(st.value, ast.Constant)
+                                            and isinstance(st.value.value, str))]
+        if len(stmts) == 1 and isinstance(stmts[0], ast.Return) and stmts[0].value is not None:
+            return self.coerce(self.ex(stmts[0].value, env), rty)
+        if len(stmts) == 1 and isinstance(stmts[0], ast.If) and stmts[0].orelse:
+            st = stmts[0]
+            return (f"(if {self.truthy(self.ex(st.test, env))} then {self.ret_tree(st.body, env, rty)} "
+                    f"else {self.ret_tree(st.orelse, env, rty)})")
+        self.err("the body is not an if/elif/else tree of return statements")
+
+
+def _ct_function(fdefs, name):
+    if name not in fdefs:
+        raise TranslationError(f"inferno/core/infrastructure.py: {name} not found")
+    return fdefs[name]
+
+
+def _ct_params(node, expected, where, skip_self=False):
+    a = node.args
+    names = [x.arg for x in a.args]
+    if skip_self:
+        if not names or names[0] not in ("self",):
+            raise TranslationError(f"{where}: expected a method taking self")
+        names = names[1:]
+    if names != expected or a.vararg or a.kwarg or a.kwonlyargs or a.posonlyargs or a.defaults:
+        raise TranslationError(f"{where}: expected parameters {expected}, found {names}")
+
+
+def _ct_consistent(node):
+    """hypoth = list(repeat(None, times=ndims)); for dim, size in constraints.items(): <if-chain of
+    `hypoth[dim] = e` / `continue` / `return <bool>`>; return <bool>"""
+    where = "_constraints_consistent"
+    tr = CTr(where)
+    body = [st for st in node.body if not (isinstance(st, ast.Expr) and isinstance(st.value, ast.Constant))]
+    if len(body) != 3 or not isinstance(body[0], (ast.Assign, ast.AnnAssign)) or not isinstance(body[1], ast.For) \
+            or not isinstance(body[2], ast.Return):
+        tr.err("expected: initialisation of the hypothesis list, one for loop, one return")
+    init = body[0]
+    tgt = init.target if isinstance(init, ast.AnnAssign) else init.targets[0]
+    if ast.unparse(tgt) != "hypoth" or ast.unparse(init.value) != "list(repeat(None, times=ndims))":
+        tr.err("the hypothesis list is not initialised as list(repeat(None, times=ndims))", init)
+    loop = body[1]
+    if ast.unparse(loop.target) != "(dim, size)" or ast.unparse(loop.iter) != "constraints.items()" or loop.orelse:
+        tr.err("the loop is not `for dim, size in constraints.items()`", loop)
+    env = {"dim": ("dim", "Z"), "size": ("size", "N"), "hypoth": ("hypoth", "H"), "ndims": ("ndims", "N"),
+           "constraints": ("constraints", "C")}
+
+    def const_bool(st):
+        if isinstance(st, ast.Return) and isinstance(st.value, ast.Constant) and st.value.value in (True, False):
+            return "true" if st.value.value else "false"
+        tr.err("only `return True` / `return False` are supported here", st)
+
+    def leaf(stmts):
+        if len(stmts) != 1:
+            tr.err("a branch of the loop body must be a single statement")
+        st = stmts[0]
+        if isinstance(st, ast.Continue):
+            return "_constraints_consistent_loop rest hypoth"
+        if isinstance(st, ast.Return):
+            return const_bool(st)
+        if isinstance(st, ast.Assign) and len(st.targets) == 1 and isinstance(st.targets[0], ast.Subscript) \
+                and ast.unparse(st.targets[0].value) == "hypoth":
+            i = tr.toZ(tr.ex(st.targets[0].slice, env))
+            v = tr.toN(tr.ex(st.value, env))
+            return f"_constraints_consistent_loop rest (py_setitem_list hypoth {i} (Some {v}))"
+        if isinstance(st, ast.If):
+            return chain(st)
+        tr.err("unsupported statement in the loop body", st)
+
+    def chain(st):
+        if not st.orelse:
+            tr.err("an if without else in the loop body", st)
+        return f"(if {tr.truthy(tr.ex(st.test, env))} then {leaf(st.body)} else {leaf(st.orelse)})"
+    if len(loop.body) != 1 or not isinstance(loop.body[0], ast.If):
+        tr.err("the loop body is not a single if/elif/else chain")
+    step = chain(loop.body[0])
+    after = const_bool(body[2])
+    return ("Fixpoint _constraints_consistent_loop (items : pydict) (hypoth : list (option nat)) : bool :=\n"
+            "  match items with\n"
+            f"  | [] => {after}\n"
+            "  | (dim, size) :: rest =>\n"
+            f"      {step}\n"
+            "  end.\n"
+            "Definition _constraints_consistent (constraints : pydict) (ndims : nat) : bool :=\n"
+            "  _constraints_consistent_loop constraints (repeat None ndims).\n")
+
+
+def _ct_reconstrain(node):
+    """ShapedTensor.reconstrain: the decision logic (which constraint dictionary results, whether the data goes through
+    __make_compatible, which exception is raised), in continuation style over the statement vocabulary the method uses."""
+    where = "ShapedTensor.reconstrain"
+    ren = {"self.__strict": "strict"}
+    tr = CTr(where, ren)
+    _ct_params(node, ["dim", "size"], where, skip_self=True)
+    body = [st for st in node.body if not (isinstance(st, ast.Expr) and isinstance(st.value, ast.Constant))]
+    pre = ["dim = int(dim)", "size = None if size is None else argtest.gte('size', size, 0, int)",
+           "data, constraints = (self.__data, self.__constraints)"]
+    got = [ast.unparse(st) for st in body[:3]]
+    if got != pre:
+        tr.err(f"unexpected preamble {got}")
+    if len(body) != 5 or not isinstance(body[3], ast.If) or ast.unparse(body[4]) != "return data":
+        tr.err("expected: preamble, one if/elif/else tree, `return data`")
+
+    def seq(stmts, env, resized):
+        """translate a statement list followed by the final `return data`"""
+        if not stmts:
+            return f"RcReturn constraints {resized}"
+        st, rest = stmts[0], stmts[1:]
+        s = ast.unparse(st)
+        if isinstance(st, ast.Assert):
+            if s == "assert size is not None":
+                if env["size"][1] == "N":
+                    return seq(rest, env, resized)
+                env2 = dict(env, size=("size_v", "N"))
+                return (f"(match size with Some size_v => {seq(rest, env2, resized)} "
+                        f"| None => RcRaise ExcAssertionError constraints end)")
+            if s == "assert data is not None":
+                return f"(if pd_is_none data then RcRaise ExcAssertionError constraints else {seq(rest, env, resized)})"
+            tr.err("unsupported assert", st)
+        if isinstance(st, ast.Raise):
+            if rest:
+                tr.err("statements after raise", st)
+            exc = st.exc
+            nm = ast.unparse(exc.func) if isinstance(exc, ast.Call) else None
+            if nm not in ("ValueError", "RuntimeError"):
+                tr.err("unsupported exception", st)
+            return f"RcRaise Exc{nm} constraints"
+        if isinstance(st, ast.Assign) and len(st.targets) == 1 and isinstance(st.targets[0], ast.Subscript) \
+                and ast.unparse(st.targets[0].value) == "constraints":
+            k = tr.toZ(tr.ex(st.targets[0].slice, env))
+            v = tr.toN(tr.ex(st.value, env))
+            return f"(let constraints := py_setitem constraints {k} {v} in {seq(rest, env, resized)})"
+        if isinstance(st, ast.Delete) and len(st.targets) == 1 and isinstance(st.targets[0], ast.Subscript) \
+                and ast.unparse(st.targets[0].value) == "constraints":
+            k = tr.toZ(tr.ex(st.targets[0].slice, env))
+            return f"(let constraints := py_delitem constraints {k} in {seq(rest, env, resized)})"
+        if s == "self.__data = self.__make_compatible(data, dim, size)":
+            if not rest or ast.unparse(rest[0]) != "data = self.__data":
+                tr.err("expected `data = self.__data` after the data has been made compatible", st)
+            if env["size"][1] != "N":
+                tr.err("size may be None where the data is made compatible", st)
+            return seq(rest[1:], env, "true")
+        if isinstance(st, ast.If):
+            # a branch that does not end in raise continues with the statements after the if
+            def cont(branch):
+                return branch if branch and isinstance(branch[-1], ast.Raise) else branch + rest
+            if ast.unparse(st.test) == "size is None" and env["size"][1] == "ON":
+                env2 = dict(env, size=("size_v", "N"))
+                return (f"(match size with None => {seq(cont(st.body), env, resized)} "
+                        f"| Some size_v => {seq(cont(st.orelse), env2, resized)} end)")
+            return (f"(if {tr.truthy(tr.ex(st.test, env))} then {seq(cont(st.body), env, resized)} "
+                    f"else {seq(cont(st.orelse), env, resized)})")
+        tr.err("unsupported statement", st)
+
+    env = {"dim": ("dim", "Z"), "size": ("size", "ON"), "data": ("data", "D"), "constraints": ("constraints", "C"),
+           "strict": ("strict", "B")}
+    tree = seq([body[3]], env, "false")
+    return ("(* size = None if size is None else argtest.gte(\"size\", size, 0, int): a negative size is a ValueError *)\n"
+            "Definition ShapedTensor_reconstrain (data : pydata) (constraints : pydict) (strict : bool) (dim : Z)\n"
+            "    (size_arg : option Z) : rc_result :=\n"
+            "  if match size_arg with Some z => (z <? 0)%Z | None => false end then RcRaise ExcValueError constraints\n"
+            "  else\n"
+            "    let size := option_map Z.to_nat size_arg in\n"
+            f"    {tree}.\n")
+
+
+def translate_constraints(repo: str = REPO):
+    path = "inferno/core/infrastructure.py"
+    tree = ast.parse(open(os.path.join(repo, path)).read())
+    fdefs = {n.name: n for n in tree.body if isinstance(n, ast.FunctionDef)}
+    cls = [n for n in tree.body if isinstance(n, ast.ClassDef) and n.name == "ShapedTensor"]
+    if not cls:
+        raise TranslationError("ShapedTensor not found")
+    meths = {}
+    for n in cls[0].body:
+        if isinstance(n, ast.FunctionDef):
+            decs = [ast.unparse(d) for d in n.decorator_list]
+            if n.name == "valid" and decs != ["property"]:
+                continue
+            meths.setdefault(n.name, n)
+    out, man = [], []
+
+    def record(name, node):
+        man.append({"module": "Constraints", "source": path, "function": name, "lines": [node.lineno, node.end_lineno],
+                    "sha256": hashlib.sha256(ast.dump(node).encode()).hexdigest()})
+
+    # _constraint_dimensionality(constraints, strict) -> int
+    f = _ct_function(fdefs, "_constraint_dimensionality")
+    _ct_params(f, ["constraints", "strict"], f.name)
+    tr = CTr(f.name)
+    env = {"constraints": ("constraints", "C"), "strict": ("strict", "B")}
+    out.append("Definition _constraint_dimensionality (constraints : pydict) (strict : bool) : Z :=\n"
+               f"  {tr.ret_tree(f.body, env, 'Z')}.\n")
+    record(f.name, f)
+    # _constraints_compatible(tensor, constraints, strict) -> bool      (the tensor is read through its shape)
+    f = _ct_function(fdefs, "_constraints_compatible")
+    _ct_params(f, ["tensor", "constraints", "strict"], f.name)
+    tr = CTr(f.name)
+    env = {"tensor": ("tensor", "S"), "constraints": ("constraints", "C"), "strict": ("strict", "B")}
+    out.append("Definition _constraints_compatible (tensor : list nat) (constraints : pydict) (strict : bool) : bool :=\n"
+               f"  {tr.ret_tree(f.body, env, 'B')}.\n")
+    record(f.name, f)
+    # _constraints_consistent(constraints, ndims) -> bool
+    f = _ct_function(fdefs, "_constraints_consistent")
+    _ct_params(f, ["constraints", "ndims"], f.name)
+    out.append(_ct_consistent(f))
+    record(f.name, f)
+    # ShapedTensor._ignore(tensor), ._ignore_or_compatible(tensor, constraints, strict): static methods
+    for nm, params, sig in (("_ignore", ["tensor"], "(tensor : pydata)"),
+                            ("_ignore_or_compatible", ["tensor", "constraints", "strict"],
+                             "(tensor : pydata) (constraints : pydict) (strict : bool)")):
+        if nm not in meths or [ast.unparse(d) for d in meths[nm].decorator_list] != ["staticmethod"]:
+            raise TranslationError(f"ShapedTensor.{nm}: static method not found")
+        f = meths[nm]
+        _ct_params(f, params, f"ShapedTensor.{nm}")
+        tr = CTr(f"ShapedTensor.{nm}")
+        env = {"tensor": ("tensor", "D"), "constraints": ("constraints", "C"), "strict": ("strict", "B")}
+        env = {k: v for k, v in env.items() if k in params}
+        out.append(f"Definition ShapedTensor_{nm} {sig} : bool :=\n  {tr.ret_tree(f.body, env, 'B')}.\n")
+        record(f"ShapedTensor.{nm}", f)
+    # ShapedTensor.valid (property), ShapedTensor.compatible(tensor)
+    ren = {"self.__owner()": "owner", "self.__data": "data", "self.__constraints": "constraints", "self.__strict": "strict"}
+    env = {"owner": ("owner", "B"), "data": ("data", "D"), "constraints": ("constraints", "C"), "strict": ("strict", "B")}
+    if "valid" not in meths:
+        raise TranslationError("ShapedTensor.valid: property not found")
+    f = meths["valid"]
+    _ct_params(f, [], "ShapedTensor.valid", skip_self=True)
+    tr = CTr("ShapedTensor.valid", ren)
+    out.append("(* owner: does the owning module still exist *)\n"
+               "Definition ShapedTensor_valid (owner : bool) (data : pydata) (constraints : pydict) (strict : bool) : bool :=\n"
+               f"  {tr.ret_tree(f.body, env, 'B')}.\n")
+    record("ShapedTensor.valid", f)
+    if "compatible" not in meths:
+        raise TranslationError("ShapedTensor.compatible: method not found")
+    f = meths["compatible"]
+    _ct_params(f, ["tensor"], "ShapedTensor.compatible", skip_self=True)
+    tr = CTr("ShapedTensor.compatible", ren)
+    env2 = dict(env, tensor=("tensor", "S"))
+    out.append("Definition ShapedTensor_compatible (tensor : list nat) (constraints : pydict) (strict : bool) : bool :=\n"
+               f"  {tr.ret_tree(f.body, env2, 'B')}.\n")
+    record("ShapedTensor.compatible", f)
+    # ShapedTensor.reconstrain(dim, size): decision logic
+    if "reconstrain" not in meths:
+        raise TranslationError("ShapedTensor.reconstrain: method not found")
+    out.append(_ct_reconstrain(meths["reconstrain"]))
+    record("ShapedTensor.reconstrain", meths["reconstrain"])
+    # RecordTensor.reconstrain(dim, size): align unless ignored, then ShapedTensor.reconstrain(self, <dim expression>, size)
+    rcls = [n for n in tree.body if isinstance(n, ast.ClassDef) and n.name == "RecordTensor"]
+    rmeth = [n for n in (rcls[0].body if rcls else []) if isinstance(n, ast.FunctionDef) and n.name == "reconstrain"]
+    if len(rmeth) != 1:
+        raise TranslationError("RecordTensor.reconstrain: method not found")
+    f = rmeth[0]
+    where = "RecordTensor.reconstrain"
+    _ct_params(f, ["dim", "size"], where, skip_self=True)
+    tr = CTr(where)
+    body = [st for st in f.body if not (isinstance(st, ast.Expr) and isinstance(st.value, ast.Constant))]
+    ok = len(body) == 2 and isinstance(body[0], ast.If) and not body[0].orelse \
+        and ast.unparse(body[0].test) == "not self._ignore(self.__data)" \
+        and [ast.unparse(x) for x in body[0].body] == ["self.align()"] and isinstance(body[1], ast.Return)
+    call = body[1].value if ok else None
+    ok = ok and isinstance(call, ast.Call) and ast.unparse(call.func) == "ShapedTensor.reconstrain" and not call.keywords \
+        and len(call.args) == 3 and ast.unparse(call.args[0]) == "self" and ast.unparse(call.args[2]) == "size"
+    if not ok:
+        tr.err("expected `if not self._ignore(self.__data): self.align()` and "
+               "`return ShapedTensor.reconstrain(self, <dim expression>, size)`")
+    e = tr.toZ(tr.ex(call.args[1], {"dim": ("dim", "Z")}))
+    out.append("(* the dimension RecordTensor.reconstrain hands to ShapedTensor.reconstrain (after aligning initialised storage) *)\n"
+               f"Definition RecordTensor_reconstrain_dim (dim : Z) : Z :=\n  {e}.\n")
+    record("RecordTensor.reconstrain", f)
+    return CONSTRAINTS_PRELUDE + "\n".join(out), man
+
+
+SPECIAL = {"Conv": translate_conv_outsize, "SpikeMath": translate_spikemath,
+           "Constraints": translate_constraints}
 
 
 def generate(outdir: str, modules: list[str] | None = None, repo: str = REPO):
@@ -913,8 +1480,9 @@ def generate(outdir: str, modules: list[str] | None = None, repo: str = REPO):
         try:
             if m in SPECIAL:
                 t2, m2 = SPECIAL[m](repo)
-                txt = ("(* GENERATED by tools/translate.py -- do not edit *)\nFrom Coq Require Import ZArith Bool.\n"
-                       "From Inferno Require Import Base.Num.\n\n" + t2)
+                txt = t2 if t2.startswith("(* GENERATED") else \
+                    ("(* GENERATED by tools/translate.py -- do not edit *)\nFrom Coq Require Import ZArith Bool.\n"
+                     "From Inferno Require Import Base.Num.\n\n" + t2)
                 man = m2 if isinstance(m2, list) else [m2]
             else:
                 txt, man = translate_module(m, repo)
